@@ -51,8 +51,11 @@ def make_case(prop, rng, tier, kind=None):
         stalls = [rng.choice([0, slot / 2, slot / 4]) for _ in range(n)]
     else:
         stalls = [rng.choice([0, 0] + pos) for _ in range(n)]
-    case = {"layer": "A", "kind": kind, "cfg": cfg, "nclients": 2, "ops": [], "final_adv": 0,
-            "meta": {"prop": prop, "lattice": lat_name, "scenario": {"gaps": gaps, "stalls": stalls, "n": n, "style": style, "cstyle": cstyle}}}
+    producers = 2 if rng.random() < 0.25 else 1       # two feeders (e.g. two workers of one machine), each with its own reservation
+    gaps2 = [rng.choice(lat) + rng.choice([0, slot]) for _ in range(n)]
+    case = {"layer": "A", "kind": kind, "cfg": cfg, "nclients": 3, "ops": [], "final_adv": 0,
+            "meta": {"prop": prop, "lattice": lat_name, "scenario": {"gaps": gaps, "gaps2": gaps2, "producers": producers, "stalls": stalls, "n": n,
+                                                                   "style": style, "cstyle": cstyle}}}
     return case, GenBelt(case["meta"]["scenario"], slot, cap)
 
 
@@ -64,6 +67,9 @@ class GenBelt:
         self.consumed = 0
         self.k = 0
         self.next_put = sc["gaps"][0]
+        self.nprod = sc.get("producers", 1)
+        self.next_put2 = sc.get("gaps2", [0])[0]
+        self.k2 = 0
         self.take_at = None
         self.count = 0
         self.maxops = 40 + 12 * self.n
@@ -89,10 +95,15 @@ class GenBelt:
             self.take_at = None
             return ["get", 1, gg[0].name]
         if gp:
+            t = gp[0]
             self.produced += 1
-            if self.produced < self.n:
-                self.next_put = now + self.sc["gaps"][self.produced]
-            return ["put", 0, gp[0].name, self.name("i"), 0, 0]
+            if t.c == 0:
+                if self.produced < self.n:
+                    self.next_put = now + self.sc["gaps"][self.produced]
+            else:
+                self.k2 += 1
+                self.next_put2 = now + self.sc["gaps2"][self.k2 % len(self.sc["gaps2"])]
+            return ["put", t.c, t.name, self.name("i"), 0, 0]
         if self.consumed >= self.n:
             return None
         # consumer
@@ -106,15 +117,21 @@ class GenBelt:
                     self.take_at = now + stall
                 if now >= self.take_at:
                     return ["rg", 1, 0, None, self.name("g")]
-        # producer
-        if not pp and self.produced < self.n and now >= self.next_put:
+        # producer(s): one outstanding reservation each
+        out0 = any(t.c == 0 for t in pp)
+        out2 = any(t.c == 2 for t in pp)
+        if not out0 and self.produced + len(pp) < self.n and now >= self.next_put:
             return ["rp", 0, 0, self.name("p")]
+        if self.nprod == 2 and not out2 and self.produced + len(pp) < self.n and now >= self.next_put2:
+            return ["rp", 2, 0, self.name("p")]
         # let time pass: next kernel event or next planned action
         if h.env.peek() <= now:
             return ["adv", 0, "after"]          # finish the current instant first
         cands = [h.env.peek()]
-        if self.produced < self.n and not pp and self.next_put > now:
+        if self.produced < self.n and not out0 and self.next_put > now:
             cands.append(self.next_put)
+        if self.nprod == 2 and self.produced < self.n and not out2 and self.next_put2 > now:
+            cands.append(self.next_put2)
         if self.take_at is not None and self.take_at > now:
             cands.append(self.take_at)
         tgt = min(cands)
